@@ -217,6 +217,17 @@ func rateLookup(c rateCase, path string) (ev rateEvent) {
 				}
 			}
 		}
+	case "invoice-opdate":
+		// the date of the operation is not the date the rates are taken from: a day earlier (the other side of a
+		// boundary the case sits on) or long before any table starts
+		od := cal.MakeDate(1990, 1, 1)
+		if (c.Date[2]+len(c.Key))%2 == 0 {
+			p := addDays(c.Date, -1)
+			od = cal.MakeDate(p[0], timeMonth(p[1]), p[2])
+		}
+		inv := &bill.Invoice{Regime: tax.WithRegime(lcode(c.CC)), IssueDate: date, OperationDate: &od, Lines: []*bill.Line{line()}}
+		inv.SetTags(tags...)
+		err = inv.Calculate()
 	case "invoice-value":
 		inv := &bill.Invoice{Regime: tax.WithRegime(lcode(c.CC)), IssueDate: other, ValueDate: &date, Lines: []*bill.Line{line()}}
 		inv.SetTags(tags...)
@@ -295,7 +306,7 @@ func ratesRun(seed int64, nrand int, in, out string) error {
 	if err != nil {
 		return err
 	}
-	paths := []string{"direct", "invoice-issue", "invoice-value", "order-value", "invoice-preset", "invoice-mixed", "invoice-customer", "delivery-value", "delivery-issue", "order-issue"}
+	paths := []string{"direct", "invoice-issue", "invoice-value", "order-value", "invoice-preset", "invoice-mixed", "invoice-customer", "delivery-value", "delivery-issue", "order-issue", "invoice-opdate"}
 	emit := func(c rateCase) {
 		for _, p := range paths {
 			w.Emit(rateLookup(c, p))
